@@ -160,6 +160,10 @@ def quicksort_keyvalue(keys, data):
 def partition_keyvalue(keys, data, start, end):
     pivot = keys[end]        # Partition around the last value
     pivot_data = data[end]
+    if hasattr(pivot_data, "dtype") and hasattr(pivot_data, "copy"):
+        # indexing a structured or multi-dimensional numpy array gives a view
+        # of the element, which the swaps below would overwrite
+        pivot_data = pivot_data.copy()
 
     bottom = start-1         # Start outside the area to be partitioned
     top = end                # Ditto
